@@ -106,6 +106,44 @@ static void run_op(char **t, int n) {
       printf("declared %u written %ld\n", declared, sm_written_total - w0); }
     show_out(t[3]);
   }
+  else if (!strcmp(o, "cab_extract_all") && n >= 3) {   /* cab_extract_all VAR OUTPREFIX [max] [reverse] : one cab_extract per listed file */
+    struct mscabd_cabinet *c = cabs[vi(t[1])]; struct mscabd_file *f; int k = 0, max = n >= 4 ? atoi(t[3]) : 1000000, cnt = 0, rev = n >= 5 && atoi(t[4]);
+    char nm[80];
+    if (!cabd || !c) return;
+    for (f = c->files; f; f = f->next) cnt++;
+    for (k = 0; k < cnt && k < max; k++) {
+      int idx = rev ? cnt - 1 - k : k; unsigned int declared; long w1 = sm_written_total;
+      f = cab_file(c, idx); if (!f) break;
+      declared = f->length; snprintf(nm, sizeof nm, "%s%d", t[2], idx);
+      if (k) opno++;
+      st = cabd->extract(cabd, f, nm); ST("cab_extract", st, cabd->last_error(cabd));
+      printf("declared %u written %ld\n", declared, sm_written_total - w1); show_out(nm);
+    }
+  }
+  else if (!strcmp(o, "chm_extract_all") && n >= 3) {
+    struct mschmd_header *h = chms[vi(t[1])]; struct mschmd_file *f; int k, max = n >= 4 ? atoi(t[3]) : 1000000, rev = n >= 5 && atoi(t[4]), cnt = 0; char nm[80];
+    if (!chmd || !h) return;
+    for (f = h->files; f; f = f->next) cnt++;
+    for (f = h->sysfiles; f; f = f->next) cnt++;
+    for (k = 0; k < cnt && k < max; k++) {
+      int idx = rev ? cnt - 1 - k : k; long declared; long w1 = sm_written_total;
+      f = chm_file(h, idx); if (!f) break;
+      declared = (long) f->length; snprintf(nm, sizeof nm, "%s%d", t[2], idx);
+      if (k) opno++;
+      st = chmd->extract(chmd, f, nm); ST("chm_extract", st, chmd->last_error(chmd));
+      printf("declared %ld written %ld\n", declared, sm_written_total - w1); show_out(nm);
+    }
+  }
+  else if (!strcmp(o, "chm_find_all") && n >= 2) {     /* fast_find every listed name */
+    struct mschmd_header *h = chms[vi(t[1])]; struct mschmd_file *f, fi; int k = 0, max = n >= 3 ? atoi(t[2]) : 1000000;
+    if (!chmd || !h) return;
+    for (f = h->files; f && k < max; f = f->next, k++) {
+      if (k) opno++;
+      memset(&fi, 0x5c, sizeof fi); st = chmd->fast_find(chmd, h, f->filename, &fi, (int) sizeof fi); ST("chm_find", st, chmd->last_error(chmd));
+      if (st == 0) { if (fi.section) printf("found sec=%u off=%ld len=%ld\n", fi.section->id, (long) fi.offset, (long) fi.length); else printf("found none\n"); }
+      printf("listed sec=%u off=%ld len=%ld\n", f->section ? f->section->id : 9, (long) f->offset, (long) f->length);
+    }
+  }
   else if (!strcmp(o, "cab_close") && n >= 2) { if (cabd && cabs[vi(t[1])] && !absorbed[vi(t[1])]) { cabd->close(cabd, cabs[vi(t[1])]); cabs[vi(t[1])] = NULL; printf("op %d cab_close err=%d\n", opno, cabd->last_error(cabd)); } }
   else if (!strcmp(o, "cab_destroy")) { if (cabd) mspack_destroy_cab_decompressor(cabd); cabd = NULL; memset(cabs, 0, sizeof cabs); memset(absorbed, 0, sizeof absorbed); printf("op %d cab_destroy\n", opno); }
 
